@@ -1,7 +1,9 @@
 """C09 — NSEC3 denial of existence: entry sanity checks, the guard set of every Secure yield
 (RFC 5155 8.4-8.8), the cover test in normal form incl. wrap-around, authenticated inputs."""
 import re
+import argnames
 import helpers
+import C06
 from api import shorten
 
 EXPLANATION = (
@@ -166,6 +168,17 @@ def run(cx):
     # S1: authenticated inputs -- shared with C08 (filter closure in verify_response)
     auth_filter(cx, 'C09.S1', 'NSEC3')
 
+    # ---------------------------------------------------------------- A1 only authenticated, non-synthesised NSEC/NSEC3 enter the proof
+    C06.nsec_not_wildcard_expanded(cx, 'C09.A1')
+
+    # ---------------------------------------------------------------- H helper semantics the guards above rely on (rules/helpers.py)
+    helpers.check(cx, 'C09.H', ['Name::zone_of', 'Name::base_name', 'RecordTypeSet::contains', 'NSEC3::type_set'])
+
+    # ---------------------------------------------------------------- N1 argument names agree with the parameters they are bound to (engine/argnames.py)
+    argnames.check(cx, 'C09.N1', r'hickory_net::dnssec', floor=80)
+    argnames.check_fields(cx, 'C09.N1', r'hickory_net::dnssec', floor=45)
+
+
 
 def auth_filter(cx, rule, variant):
     """the filter_map closure that selects NSEC/NSEC3 records yields Some only if some record with
@@ -192,6 +205,3 @@ def auth_filter(cx, rule, variant):
             okp = okp or holds
         cx.check(rule, okp, g.path, 'inner-predicate', 'same-owner-and-secure', f'{len(inner)} inner closures')
     cx.check(rule, found == 1, V + '*', 'filters', 'authenticated-filter-present', f'{found} {variant} filters')
-
-    # ---------------------------------------------------------------- H helper semantics the guards above rely on (rules/helpers.py)
-    helpers.check(cx, 'C09.H', ['Name::zone_of', 'Name::base_name', 'RecordTypeSet::contains', 'NSEC3::type_set'])
